@@ -35,7 +35,8 @@ EXPLANATION = (
     '_register_typing_import in the same function or callback (datetime through '
     '_register_adhoc_import); the import placeholder is emitted once and filled once, after all '
     'declarations. Decides structure, not the correctness of individual annotations.'
-    ' R4 (generator totality, stonelint.totality): python_type_stubs completes -- IR attribute reads defined for every reaching class; raises/asserts unreachable dispatch defaults or configuration conditions.')
+    ' R4 (generator totality, stonelint.totality): python_type_stubs completes -- IR attribute reads defined for every reaching class; raises/asserts unreachable dispatch defaults or configuration conditions.'
+    ' RD (decision drift, stonelint.conddrift): the tests of the functions this property is anchored in (stonelint.ownership) are compared with reference/conditions.json; a relation, polarity or connective changed over the same operands, or an operand purely added or dropped, is a violation; re-spellings and new or removed tests are not claimed.')
 ASSUMPTIONS = ['typing names are recognised among: List Dict Optional Text Type Callable TypeVar '
                'Union Any Tuple Set']
 TYPING = ('List', 'Dict', 'Optional', 'Text', 'Type', 'Callable', 'TypeVar', 'Any', 'Tuple', 'Set')
@@ -350,3 +351,7 @@ def run(pm, ctx):
     totality.run_pack(pm, ctx, 'C15-R4', ('stone.backends.python_type_stubs', 'stone.backends.python_type_mapping',
                        'stone.backends.python_helpers'),
                       True, 'python_type_stubs', TOTALITY_PRECONDITIONS, (10, 3, 0))
+
+    from ..conddrift import run_decisions
+    from ..ownership import OWN
+    run_decisions(pm, ctx, 'C15-RD', OWN['C15'])
